@@ -1536,9 +1536,16 @@ func resolveVarRec(computed map[string]pr.RawTokens, token Token, inProgress map
 	}
 
 	_, args := pa.ParseFunction(token)
-	// first arg is name, next args are default value
-	varNameToken, default_ := args[0], args[1:]
-	variableName := varNameToken.(pa.Ident).Value
+	// first arg is name
+	variableName := args[0].(pa.Ident).Value
+	// the default value is everything after the first comma (its own commas included)
+	var default_ []Token
+	for i, arg := range fn.Arguments {
+		if pa.IsLiteral(arg, ",") {
+			default_ = pa.RemoveWhitespace(fn.Arguments[i+1:])
+			break
+		}
+	}
 	if inProgress[variableName] {
 		// cyclic reference: invalid at computed-value time
 		return []Token{}
